@@ -24,6 +24,12 @@ class DriverCrash(Exception):
         return crash_signature(self.stderr, self.returncode)
 
 
+def _in_repo(path):
+    if os.path.isabs(path):
+        return path.startswith(build.REPO + "/")
+    return path.split("/")[0] in ("src", "partial", "bin", "include") and os.path.exists(os.path.join(build.REPO, path))
+
+
 def crash_signature(stderr, returncode):
     """Narrow, stable description of a sanitizer report: kind + innermost frame that lies in libeav sources."""
     kind = "exit%s" % returncode
@@ -42,11 +48,15 @@ def crash_signature(stderr, returncode):
             m2 = re.search(r"DRV-ABORT case=\S+ stage=(\S*) sig=(\d+)", stderr)
             kind = "signal%s" % (m2.group(2) if m2 else "?")
     frame = "?"
-    for m in re.finditer(r"#\d+ 0x[0-9a-f]+ in (\S+) (/\S+?):(\d+)", stderr):
+    for m in re.finditer(r"#\d+ 0x[0-9a-f]+ in (\S+) (\S+?):(\d+)", stderr):
         fn, path = m.group(1), m.group(2)
-        if "/repo/" in path or path.startswith(build.REPO):
+        if _in_repo(path):
             frame = "%s@%s" % (fn, os.path.basename(path))
             break
+    if frame == "?":
+        m = re.search(r"SUMMARY: \w+Sanitizer: \S+ (\S+?):\d+(?::\d+)? in (\S+)", stderr)
+        if m and _in_repo(m.group(1)):
+            frame = "%s@%s" % (m.group(2), os.path.basename(m.group(1)))
     if frame == "?":
         m = re.search(r"stage=(\S+)", stderr)
         if m:
